@@ -739,6 +739,43 @@ fn gen_marathon(rng: &mut Rng) -> Vec<Op> {
     ops
 }
 
+/// A long run of packets that leave the sent journal WITHOUT being acknowledged (ACK-only packets are
+/// dropped from the front at the next rotation; lost packets once their record expires), interleaved with
+/// duplicate ACKs of packet 0 that make the journal slide: the truncation width must keep following the
+/// distance to the largest ACKNOWLEDGED number, not the oldest packet still tracked.
+fn gen_marathon_unacked(rng: &mut Rng) -> Vec<Op> {
+    let lane = *rng.pick(&[0u8, 1, 3]);
+    let sp = space_of(lane) as u8;
+    // beyond 2^16: a 2-byte truncation can then no longer be reconstructed from the acknowledged position
+    let n = 70_000 + rng.below(3000);
+    let mut ops = Vec::with_capacity(n as usize + 128);
+    ops.push(Op::Asm { lane, path: 0, trivial: false, buf: 120, items: vec![Item::Ping] });
+    ops.push(Op::Ack { space: sp, back: 0, range: 0 });
+    let lossy = rng.bool();
+    for i in 0..n {
+        if lossy && i % 7 == 3 {
+            // an ack-eliciting packet that is declared lost right away and expires later
+            ops.push(Op::Asm { lane, path: 0, trivial: false, buf: 120, items: vec![Item::Ping] });
+            ops.push(Op::Loss { space: sp, back: 0 });
+        } else {
+            ops.push(Op::Asm { lane, path: (i % 2) as u8, trivial: false, buf: 120, items: vec![Item::Ack { back: 0, range: 0 }] });
+        }
+        if i % 2500 == 2499 {
+            ops.push(Op::Advance { ms: 20_000 });
+            // duplicate ACK of packet 0: acknowledges nothing new, but rotates the journal
+            ops.push(Op::Ack { space: sp, back: u64::MAX, range: 0 });
+            ops.push(Op::Asm { lane, path: 0, trivial: false, buf: 120, items: vec![Item::Ping] });
+            ops.push(Op::Loss { space: sp, back: 0 });
+        }
+    }
+    ops.push(Op::Advance { ms: 20_000 });
+    ops.push(Op::Ack { space: sp, back: u64::MAX, range: 0 });
+    for _ in 0..20 {
+        ops.push(Op::Asm { lane, path: 0, trivial: false, buf: 120, items: vec![Item::Ping] });
+    }
+    ops
+}
+
 fn keyring() -> Result<Keyring, String> {
     let hs = pktkeys::handshake(0)?;
     let ic = pktkeys::initial_keys(&[8, 7, 6, 5, 4, 3, 2, 1], rustls::Side::Client);
@@ -811,9 +848,15 @@ pub fn run(args: &Args, rep: &mut Report) {
     let n = args.budget(if thorough { 300_000 } else { 20_000 });
     let rt = new_rt();
     for i in 0..=n {
-        // the last history of every shard is the marathon
-        let ops = if i == n { gen_marathon(&mut rng) } else { gen_history(&mut rng) };
-        let st = run_ops(rep, &rt, &keys, &ops, if i == n { "marathon" } else { "random" });
+        // the last two histories of every shard are the marathons
+        let (ops, mode) = if i == n {
+            (gen_marathon(&mut rng), "marathon")
+        } else if i + 1 == n {
+            (gen_marathon_unacked(&mut rng), "marathon-unacked")
+        } else {
+            (gen_history(&mut rng), "random")
+        };
+        let st = run_ops(rep, &rt, &keys, &ops, mode);
         rep.evaluations += 1;
         for (k, name) in SPACE_NAMES.iter().enumerate() {
             rep.add(&format!("built_packets_{name}"), st.built[k]);
